@@ -179,6 +179,51 @@ def ex_callers(ctx, mags, bins):
         elif ok and not numpy.array_equal(numpy.asarray(smc).sum(axis=0), numpy.asarray(res)):
             ctx.violate("spatial_magnitude_counts magnitude marginal != magnitude_counts", {"exec": "callers", "args": {"mags": mags, "bins": bins}},
                         observed=numpy.asarray(smc).sum(axis=0), expected=res, tags={"api": "spatial_magnitude_counts"})
+    # history: the catalog has been binned on the magnitude grid bound to its region; the SAME region object then gets another magnitude
+    # grid (assigned, or replaced by a forecast constructed on the shared region); the catalog's bins must be those of the grid now bound.
+    # Decided on the events that lie outside the round-off band of both grids (the contract underneath judges the others call by call).
+    if n and bins.size >= 3:
+        bins2 = bins[1:].copy()
+
+        def _ref(b_, m_):
+            tk_ = numpy.minimum(numpy.searchsorted(b_, m_, side="right") - 1, b_.size - 1)
+            nxt_ = numpy.clip(tk_ + 1, 0, b_.size - 1)
+            band_ = (tk_ + 1 <= b_.size - 1) & ((b_[nxt_] - m_) <= binning.band(m_, nxt_.astype(float), b_[0], binning.EPS64, None))
+            return tk_, band_
+        clean = mags[~(_ref(bins, mags)[1] | _ref(bins2, mags)[1])]
+        if clean.size:
+            rcase = {"exec": "callers", "args": {"mags": mags, "bins": bins}}
+            cat_h = CSEPCatalog(data=[(str(i), 1000 * i, 2.0, 1.0, 5.0, float(clean[i])) for i in range(clean.size)])
+            cat_h.region = regions.CartesianGrid2D.from_origins(numpy.array([[1.5, 0.5], [1.5, 1.5], [2.5, 0.5], [2.5, 1.5]]), dh=1.0, magnitudes=bins)
+            tk1 = _ref(bins, clean)[0]
+            ok_i, idx1, tb_i = ctx.call(cat_h.get_mag_idx)
+            ok_c, cnt1, tb_c = ctx.call(cat_h.magnitude_counts)
+            ctx.mon("catalog.magnitude_counts~reference", 1)
+            if not ok_i or not numpy.array_equal(numpy.asarray(idx1), tk1):
+                ctx.violate("get_mag_idx-vs-reference", rcase, observed=repr(idx1) if not ok_i else numpy.asarray(idx1)[:12], expected=tk1[:12],
+                            tags={"api": "get_mag_idx"})
+            ref1 = numpy.bincount(tk1[tk1 >= 0], minlength=bins.size).astype(float)
+            if not ok_c or not numpy.array_equal(numpy.asarray(cnt1), ref1):
+                ctx.violate("magnitude_counts-vs-reference", rcase, observed=repr(cnt1) if not ok_c else numpy.asarray(cnt1), expected=ref1,
+                            tags={"api": "magnitude_counts", "bins": "region-bound"})
+            how = int(n + bins.size) % 2
+            if how == 0:
+                cat_h.region.magnitudes = bins2
+            else:
+                ctx.call(GriddedForecast, data=numpy.ones((4, bins2.size)), region=cat_h.region, magnitudes=bins2)
+            if numpy.array_equal(numpy.asarray(cat_h.region.magnitudes, dtype=float), bins2):
+                tk = _ref(bins2, clean)[0]
+                htags = {"history": "region.magnitudes assigned" if how == 0 else "forecast constructed on the shared region"}
+                ok_i, idx2, tb_i = ctx.call(cat_h.get_mag_idx)
+                ctx.mon("history:region magnitudes replaced between two binnings", 1)
+                if not ok_i or not numpy.array_equal(numpy.asarray(idx2), tk):
+                    ctx.violate("after the region's magnitude grid was replaced the catalog still reports bins of the old grid (get_mag_idx)", rcase,
+                                observed=repr(idx2) if not ok_i else numpy.asarray(idx2)[:12], expected=tk[:12], tags=dict(htags, api="get_mag_idx"))
+                ok_c, cnt2, tb_c = ctx.call(cat_h.magnitude_counts)
+                ref2 = numpy.bincount(tk[tk >= 0], minlength=bins2.size).astype(float)
+                if not ok_c or not numpy.array_equal(numpy.asarray(cnt2), ref2):
+                    ctx.violate("after the region's magnitude grid was replaced the catalog still counts on the old grid (magnitude_counts)", rcase,
+                                observed=repr(cnt2) if not ok_c else numpy.asarray(cnt2), expected=ref2, tags=dict(htags, api="magnitude_counts"))
     # discretize (closed and open)
     ok, res, tb = ctx.call(calc.discretize, mags, bins, right_continuous=True)
     if ok and (mags >= bins[0]).all():
